@@ -9,6 +9,7 @@
 //!   * a function must be declared (prototype or definition) before the body that calls it;
 //!   * a call must supply at least the parameters without default and at most all parameters of the (unique) function of
 //!     that name — an emitted `h(x)` for `int h(int a, int b)` without default is ill-formed HLSL, not a "stuck" evaluation;
+//!   * a function is defined once;
 //!   * a prototype that is never defined declares nothing the evaluators can run; it is dropped (a call of it is stuck).
 #![allow(dead_code)]
 
@@ -51,10 +52,16 @@ pub fn count(items: &[Sx]) -> usize {
 }
 
 pub fn merge(items: Vec<Sx>) -> Result<Vec<Sx>, String> {
-    if !items.iter().any(is_proto) {
-        return Ok(items);
-    }
     let mut items = items;
+    // ---- one definition per signature (a prototype exported with its body would define the function twice)
+    {
+        let defs: Vec<(String, Vec<String>)> = items.iter().filter(|x| is_fn(x) && !is_proto(x)).map(sig).collect();
+        for (i, d) in defs.iter().enumerate() {
+            if defs[..i].contains(d) {
+                return Err(format!("{} ({}) is defined twice", d.0, d.1.join(", ")));
+            }
+        }
+    }
     // ---- every prototype against its definition
     let n = items.len();
     for i in 0..n {
